@@ -322,18 +322,45 @@ def execute(history):
                     spec = st["spec"]
                     if not st["started"]:
                         st["started"] = True
+                        st["pure"] = bool(spec["restart"])
+                        st["yielded"] = []
                         if spec["restart"]:
                             if U:
                                 bump("fault:restart_while_cells_consumed")
                             U = set()
+                        for st2 in streams.values():
+                            if st2 is not st:
+                                st2["pure"] = False
                     others = [s2 for s2 in streams.values() if s2 is not st and s2["started"] and not s2["done"]]
                     if others:
                         bump("fault:generators_interleaved_on_one_matrix")
+                        for st2 in others:
+                            st2["pure"] = False
                     try:
                         m = next(st["gen"])
                     except StopIteration:
                         st["done"] = True
                         bump("stream_exhausted")
+                        m = None
+                    if st.get("pure"):
+                        # a restarted stream that nobody else has disturbed must yield what the same stream yields on a fresh object
+                        st["yielded"].append(None if m is None else [list(map(int, t)) for t in m.path])
+                        fresh = _mk(setup)
+                        fresh.align()
+                        g2 = fresh.kbest_matches(k=spec["k"], minlen=spec["minlen"], buffer=spec["buffer"], restart=True)
+                        exp = []
+                        for _ in st["yielded"]:
+                            try:
+                                exp.append([list(map(int, t)) for t in next(g2).path])
+                            except StopIteration:
+                                exp.append(None)
+                                break
+                        bump("oracle:restart_equals_fresh")
+                        if exp != st["yielded"]:
+                            add({"class": "restart-not-as-fresh", "detail": "a kbest_matches(k=%s, buffer=%s, restart=True) stream started after earlier searches yields %r, on a fresh object %r"
+                                                                            % (spec["k"], spec["buffer"], st["yielded"][-2:], exp[-2:])}, opi)
+                            st["pure"] = False
+                    if m is None:
                         continue
                     st["n"] += 1
                     bump("op:next")
@@ -369,8 +396,19 @@ def execute(history):
                         U.update((int(a), int(b)) for a, b in path)
                     if op["k"] is not None and n > op["k"]:
                         add({"class": "stream-count", "detail": "store returned %d > k=%d matches" % (n, op["k"])}, opi)
+                    if op["restart"]:
+                        # "restart: start searching from start, ignore previous calls": the result must be what a fresh object gives
+                        fresh = _mk(setup)
+                        fresh.align()
+                        exp = [[list(map(int, t)) for t in m.path] for m in fresh.kbest_matches_store(k=op["k"], minlen=op["minlen"], buffer=op["buffer"], restart=True, keep=op["keep"])]
+                        got = [[list(map(int, t)) for t in m.path] for m in ms]
+                        bump("oracle:restart_equals_fresh")
+                        if got != exp:
+                            add({"class": "restart-not-as-fresh", "detail": "kbest_matches_store(k=%s, buffer=%s, restart=True) after earlier searches returns %r, a fresh object returns %r" % (op["k"], op["buffer"], got[:3], exp[:3])}, opi)
                     if not op["keep"]:
                         U = set()
+                    for st2 in streams.values():
+                        st2["pure"] = False
                 elif kind == "best_match":
                     if lc._wp is None or setup["variant"] == "c_compact":
                         continue
